@@ -465,6 +465,11 @@ SUITES = {
     "evaluate": suite_evaluate,
     "faults": suite_faults,
 }
+# stream F: excerpts of the two-level hierarchy fixture files (and flat segment files as one-level hierarchies)
+from suites import fixtures as _FX  # noqa: E402
+if "hierarchy" in _FX.SUITES:
+    SUITES["fixtures.hierarchy"] = _FX.SUITES["hierarchy"]
+RULE += "; " + _FX.RULE_NOTE
 
 
 # ------------------------------------------------------------------------------------------------
